@@ -17,6 +17,7 @@ pub struct Ctx {
     pub seed: u64,
     pub replay: Option<Vec<String>>,
     pub replay_done: bool,
+    pub corpus: Vec<(String, Vec<u8>)>,
 }
 
 impl Ctx {
@@ -308,12 +309,29 @@ pub fn run_dec<T: Model>(ctx: &mut Ctx) {
             }
         }
     }
+    // minimised past failures and hand-picked witnesses for this schema run with the generated inputs
+    for (cd, cb) in ctx.corpus.clone() {
+        if cd == d {
+            inputs.push(cb);
+        }
+    }
     let mut seen: HashSet<Vec<u8>> = HashSet::new();
-    let fixed = <T as Decode>::is_ssz_fixed_len();
     for b in inputs {
         if !seen.insert(b.clone()) {
             continue;
         }
+        dec_case::<T>(ctx, &b);
+    }
+}
+
+/// one decode case: correspondence line plus every implementation-side oracle that applies
+pub fn dec_case<T: Model>(ctx: &mut Ctx, b: &[u8]) {
+    let b: Vec<u8> = b.to_vec();
+    let d = T::desc();
+    let name = T::rust_name();
+    let fixed = <T as Decode>::is_ssz_fixed_len();
+    let fl = <T as Decode>::ssz_fixed_len();
+    {
         let hx = hex(&b);
         let r = catch_unwind(AssertUnwindSafe(|| T::from_ssz_bytes(&b)));
         let s = match &r {
@@ -362,6 +380,49 @@ pub fn run_dec<T: Model>(ctx: &mut Ctx) {
             Err(_) => ctx.out.bump(&format!("dec.{}.panic", d_short(&d))),
         }
     }
+}
+
+/// greedy shrinking of a decode input on which the named oracle fails: drop bytes, zero bytes, while it still fails
+pub fn shrink_dec<T: Model>(ctx: &mut Ctx, oracle: &str, b: &[u8]) -> Vec<u8> {
+    let mut fails = |ctx: &mut Ctx, cand: &[u8]| -> bool {
+        ctx.out.capture = Some(Vec::new());
+        dec_case::<T>(ctx, cand);
+        let got = ctx.out.capture.take().unwrap_or_default();
+        got.iter().any(|o| o == oracle)
+    };
+    let mut cur = b.to_vec();
+    if !fails(ctx, &cur) {
+        return cur;
+    }
+    let mut changed = true;
+    while changed {
+        changed = false;
+        let mut i = 0;
+        while i < cur.len() {
+            let mut cand = cur.clone();
+            cand.remove(i);
+            if fails(ctx, &cand) {
+                cur = cand;
+                changed = true;
+            } else {
+                i += 1;
+            }
+        }
+        for i in 0..cur.len() {
+            for v in [0u8, 1] {
+                if cur[i] > v {
+                    let mut cand = cur.clone();
+                    cand[i] = v;
+                    if fails(ctx, &cand) {
+                        cur = cand;
+                        changed = true;
+                        break;
+                    }
+                }
+            }
+        }
+    }
+    cur
 }
 
 fn d_short(d: &str) -> String {
